@@ -186,7 +186,7 @@ def judge(chk, label, lines, zones_wanted, impl_pieces, work, start, until, note
 # ------------------------------------------------------------------ program generation (small sources over the documented grammar)
 STDOFFS = ['-8:00', '-3:30', '0:00', '5:45', '12:45', '1:00', '5:40', '-3:40',   # the last two of this line are truncated (and noted) in basic scope
            '-0:37', '5:53']      # a negative offset below one hour; minute remainders of 8 (both need the one-minute resolution of extended scope)
-ATS = ['0:00', '2:00', '2:00s', '1:00u', '24:00', '3:00']
+ATS = ['0:00', '2:00', '2:00s', '1:00u', '24:00', '3:00', '2:00:30']      # the last one is truncated to the minute (and noted per zone)
 SAVES = ['0', '1:00', '0:30', '2:00']
 ONS = ['1', '15', 'lastSun', 'Sun>=1', 'Sun>=8', 'Sun>=15', 'lastSat', 'Fri>=22', 'Sat>=1']   # forms zic can also express in its POSIX-TZ footer (needed beyond 2037)
 UNTILS = [['YEAR'], ['YEAR', 'Jan', '1'], ['YEAR', 'Mar', 'lastSun', '2:00'], ['YEAR', 'Oct', 'Sun>=1', '2:00s'], ['YEAR', 'Apr', '1', '1:00u'], ['YEAR', 'Jul', '15', '0:00'],
@@ -207,7 +207,7 @@ def gen_policy(rnd, name):
         to = 'max' if (last and rnd.random() < 0.7) else str(y + rnd.choice([0, 2, 5, 9]))
         to_s = 'only' if to == str(y) else to
         # a period that ends must end in standard time (no source leaves a zone in DST forever): spring rule first
-        m1, m2 = rnd.choice([(3, 10), (4, 9), (3, 11), (10, 3), (9, 4)]) if to == 'max' else rnd.choice([(3, 10), (4, 9), (3, 11)])
+        m1, m2 = rnd.choice([(3, 10), (4, 9), (3, 11), (10, 3), (9, 4), (1, 7)]) if to == 'max' else rnd.choice([(3, 10), (4, 9), (3, 11), (1, 6)])      # (January rules: a basic-scope filter exists for those that fall on Jan 1)
         at = rnd.choice(ATS)
         on1, on2 = rnd.choice(ONS), rnd.choice(ONS)
         lines.append('Rule\t%s\t%d\t%s\t-\t%s\t%s\t%s\t%s\t%s' % (name, y, to_s, MONTHS[m1 - 1], on1, at, save, letters[1]))
@@ -289,11 +289,23 @@ def _gen_zone(rnd, k):
             lines.append(pre + '\t'.join([o, r, f] + u))
         if rnd.random() < 0.2:
             lines.append('Link\t%s\tTest/Alias_%03d' % (zname, k))
+        if used_pol and rnd.random() < 0.3:
+            # a second zone using the same policy (notes attached per zone must reach every zone that uses a policy)
+            lines.append('Zone\t%sb\t%s\t%s\t%s' % (zname, rnd.choice(STDOFFS[:6]), pol, rnd.choice(['TE%sT', 'STD/DST'])))
     return lines
 
 
 def mutate_source(rnd, lines, nmut):
-    """seeded single-field mutations that stay inside the grammar"""
+    """seeded single-field mutations that stay inside the grammar; re-drawn (with fewer mutations) until zic accepts the result
+    without complaint"""
+    for attempt in range(6):
+        m, done = _mutate_once(rnd, lines, max(1, nmut - 4 * attempt))
+        if _zic_accepts(m):
+            return m, done
+    return list(lines), []
+
+
+def _mutate_once(rnd, lines, nmut):
     lines = list(lines)
     idx = [i for i, l in enumerate(lines) if l.startswith('Rule')]
     done = []
